@@ -150,8 +150,6 @@ threshold!(c05_slice_cobs_named, Named, Framing::Cobs, 9, 27);
 threshold!(c05_slice_cobs_u64, u64, Framing::Cobs, 10, 27);
 //@ tier=quick class=core cap=900 bounds="all u32 values x capacity; CRC-16 (vs bitwise reference CRC)"
 threshold!(c05_slice_crc16_u32, u32, Framing::Crc16, 5, 27);
-//@ tier=thorough class=core cap=1200 bounds="all Named values x capacity; CRC-32"
-threshold!(c05_slice_crc32_named, Named, Framing::Crc32, 9, 27);
 //@ tier=thorough class=core cap=900 bounds="all u32 values x capacity; CRC-32"
 threshold!(c05_slice_crc32_u32, u32, Framing::Crc32, 5, 27);
 
